@@ -2824,6 +2824,145 @@ def example_histories(ctx, I, files, deadline=None, per_calc=2):
 
 
 # =====================================================================================================
+# stream: Equation / SubstitutionInverse / IntegrateByEquation against equationM / substInvM / getCoeff, ibeM
+# =====================================================================================================
+def spy_normalize(I):
+    """Context manager recording the (argument, result) pairs of rules.normalize."""
+    @contextlib.contextmanager
+    def cm():
+        R = I.rules
+        rec = []
+        orig = R.normalize
+
+        def spy(e_, conds_=None):
+            r_ = orig(e_, conds_)
+            rec.append((e_, r_))
+            return r_
+        R.normalize = spy
+        try:
+            yield rec
+        finally:
+            R.normalize = orig
+    return cm()
+
+
+def rule_models2_stream(ctx, I, n):
+    E, R = I.expr, I.rules
+    P = I.parser.parse_expr
+    rng = ctx.rng("rule-models2")
+    judge = StepJudge(I, rng, nsamples=2, budget_s=4.0)
+    with quiet():
+        conds = [P("a > 0"), P("b > 0")]
+    hctx = I.context.Context()
+    for c in conds:
+        hctx.add_condition(c)
+    norm = norm_pieces(I, conds)
+    pairs = [("x + x", "2 * x"), ("sin(x) ^ 2 + cos(x) ^ 2", "1"), ("(x + 1) ^ 2", "x ^ 2 + 2 * x + 1"), ("x * x", "x ^ 2"),
+             ("a * x + b * x", "(a + b) * x"), ("exp(x) * exp(a)", "exp(x + a)"), ("1 / x + 1", "(x + 1) / x"), ("x - x", "0"),
+             ("2 * (x + a)", "2 * x + 2 * a"), ("x ^ 2 - 1", "(x - 1) * (x + 1)"), ("x + x", "3 * x"), ("x * x", "x ^ 3")]
+    frames = ["OLD", "sin(OLD) + OLD", "INT x:[1,2]. OLD * exp(x)", "(INT x:[1,2]. cos(OLD)) + OLD", "a * OLD / (1 + OLD ^ 2)",
+              "INT x:[OLD,3]. x", "[OLD * x]_x=1,2", "1 + x", "log(2 + (OLD) ^ 2) - (OLD)", "INT x:[1,2]. INT y:[0,x]. y * (OLD)"]
+    jobs = []
+    for k in range(n):
+        kind = rng.choice(["equation", "equation", "substinv", "ibe"])
+        try:
+            with quiet():
+                if kind == "equation":
+                    old_s, new_s = rng.choice(pairs)
+                    e = P(rng.choice(frames).replace("OLD", "(" + old_s + ")"))
+                    old, new = P(old_s), P(new_s)
+                    rule = R.Equation(old, new)
+                    st, real = apply_rule(I, rule, P(str(e)), hctx)
+                    ctx.count("rule-models2:equation:" + ("applied" if st == "ok" else st.split(":")[0]))
+                    if st not in ("ok", "rejected"):
+                        continue
+                    so, sn, se = to_sexp(E, old), to_sexp(E, new), to_sexp(E, P(str(e)))
+                    if so is None or sn is None or se is None:
+                        continue
+                    found = len(P(str(e)).find_subexpr(old)) > 0
+                    accepted = (st == "ok")
+                    jobs.append(("equation", "rewrite %s to %s in %s" % (old, new, e), real, sexp.dumps(["equation", so, sn, accepted or not found, se]), e))
+                    if accepted:
+                        # the acceptance test stands for  old = new (under the conditions): judge it
+                        try:
+                            verdict, detail = judge.judge(old, new, conds, {}, {}, set(), set())
+                        except Exception:  # noqa
+                            verdict, detail = "skip", None
+                        ctx.count("rule-models2:equation:accept-" + verdict.split(":")[0])
+                        if verdict == "bad":
+                            ctx.violation("equation-accept:%s:%s" % (old, new), "Equation accepted rewriting %s to %s, which have different values: %s" % (
+                                old, new, detail), {"kind": "rule", "rule": "equation", "before": str(e), "params": rule.export()})
+                elif kind == "substinv":
+                    lo, hi, c, _q = gen_bounds(I, rng)
+                    h = P(rng.choice(["2 * u", "u ^ 2", "sin(u)", "exp(u)", "u + 1", "tan(u)", "1 / u", "3 * u - 1", "u / 2", "sqrt(u)"]))
+                    body = gen_integrand(I, rng, rng.choice([0, 1, 1, 2]))
+                    before = E.Integral("x", lo, hi, body)
+                    rule = R.SubstitutionInverse("u", h)
+                    st, real = apply_rule(I, rule, P(str(before)), hctx)
+                    ctx.count("rule-models2:substinv:" + ("applied" if st == "ok" else st.split(":")[0]))
+                    if st != "ok":
+                        continue
+                    swap = real.ty == E.OP and len(real.args) == 1
+                    it = real.args[0] if swap else real
+                    if it.ty != E.INTEGRAL:
+                        continue
+                    lo2, hi2 = (it.upper, it.lower) if swap else (it.lower, it.upper)
+                    sx = [to_sexp(E, t) for t in (h, lo2, hi2, P(str(before)))]
+                    if any(t is None for t in sx):
+                        continue
+                    jobs.append(("substinv", "x = %s on %s" % (h, before), real, sexp.dumps(["substinv", "u", sx[0], sx[1], sx[2], swap, sx[3]]), before))
+                    # hypotheses lo_eq / hi_eq of SubstInvOK: the computed bounds are mapped to the old ones
+                    for newb, oldb, nm in ((lo2, lo, "lower"), (hi2, hi, "upper")):
+                        try:
+                            verdict, detail = judge.judge(h.subst("u", newb), oldb, conds, {}, {}, set(), set())
+                        except Exception:  # noqa
+                            verdict, detail = "skip", None
+                        ctx.count("rule-models2:substinv:bound-" + verdict.split(":")[0])
+                        if verdict == "bad":
+                            ctx.violation("substinv-bounds:%s:%s" % (before, h), "SubstitutionInverse(u, %s) on %s computed the %s bound %s, which h does not map "
+                                          "to %s: %s" % (h, before, nm, newb, oldb, detail),
+                                          {"kind": "rule", "rule": "subst-inv", "before": str(before), "params": rule.export()})
+                else:
+                    L = P(rng.choice(["INT x:[0,1]. exp(x) * sin(x)", "INT x:[0,pi]. exp(-x) * cos(x)", "INT x:[1,2]. sin(log(x))",
+                                      "INT x:[0,1]. exp(a * x) * cos(b * x)"]))
+                    c1 = rng.choice(["exp(1) * sin(1)", "2", "a + 1", "-(exp(1) * cos(1)) + 1", "pi / 2"])
+                    form = rng.choice(["%s - L", "%s - 2 * L", "%s + L / 2", "-(3 * L) + %s", "%s - a * L", "(%s - L) / 2", "%s + 1/3 * L - L"])
+                    e = P((form % c1).replace("L", "(" + str(L) + ")"))
+                    rule = R.IntegrateByEquation(L)
+                    with spy_normalize(I) as rec:
+                        st, real = apply_rule(I, rule, P(str(e)), hctx)
+                    ctx.count("rule-models2:ibe:" + ("applied" if st == "ok" else st.split(":")[0]))
+                    if st != "ok" or len(rec) < 3:
+                        continue
+                    ne, Ln, cn = rec[0][1], rec[1][1], rec[2][1]
+                    sx = [to_sexp(E, t) for t in (Ln, ne, cn)]
+                    if any(t is None for t in sx):
+                        continue
+                    jobs.append(("getcoeff", "coefficient of %s in %s" % (Ln, ne), cn, sexp.dumps(["getcoeff", sx[0], sx[1]]), e))
+                    jobs.append(("ibe", "solve %s = %s" % (L, e), real, sexp.dumps(["ibe", sx[0], sx[1], sx[2]]), e))
+        except Timeout:
+            raise
+        except Exception as ex:  # noqa
+            ctx.count("rule-models2:%s:setup-%s" % (kind, type(ex).__name__))
+            continue
+    out = ctx.lean_driver(EXE, [j[3] for j in jobs]) if jobs else []
+    if out is None:
+        ctx.broken("correspondence:c19:driver", "model driver unavailable")
+        return
+    for (kind, what, real, line, before), ans in zip(jobs, out):
+        ctx.case(("rule-model2", kind, what), nontrivial=True)
+        if kind == "equation":
+            if real is None or ans == "raises":
+                if (real is None) != (ans == "raises"):
+                    ctx.count("rule-models2:equation:raise-mismatch")
+                else:
+                    ctx.count("rule-models2:equation:both-decline")
+                continue
+            ans = sexp.dumps(sexp.loads(ans)[1])
+        model_vs_impl(ctx, I, "rule-models2:" + kind, what, real, ans, judge, conds, norm)
+
+
+# =====================================================================================================
 # stream: bounds of expressions under interval conditions (Conditions.get_bounds_for_expr)
 # =====================================================================================================
 def gen_bounded_expr(E, rng, depth):
@@ -3086,9 +3225,9 @@ def run(ctx):
         "magnitude); thorough: all files; quick: the file group `seed mod 4` (a quarter of the steps) within a time cap -- see "
         "example_steps.coverage for what this run reached. distinct = by canonical input string.")
     use_module_findings(ctx)
-    proofs_ok = ctx.lean_props(["Holpy.C19.Props", "Holpy.C19.Props2"], exes=[EXE])
+    proofs_ok = ctx.lean_props(["Holpy.C19.Props", "Holpy.C19.Props2", "Holpy.C19.Props3"], exes=[EXE])
     if ctx.tier == "thorough" and proofs_ok:
-        ctx.lean_check_modules(["Holpy.C19.Props", "Holpy.C19.Props2"])
+        ctx.lean_check_modules(["Holpy.C19.Props", "Holpy.C19.Props2", "Holpy.C19.Props3"])
     ctx.coverage["trusted_base"] += [
         "Mathlib v4.33 analysis modules imported by the proof files (SpecialFunctions.*Deriv, Pow.Deriv, Sqrt, IntervalIntegral)",
         "correspondence harness harness/props/c19.py: generators, s-expression writer, replacement of rules.normalize by the identity "
@@ -3123,6 +3262,7 @@ def run(ctx):
     ctx.log("normalize stream done")
     linearity_stream(ctx, I, ctx.scale(300, 4000))
     rule_models_stream(ctx, I, ctx.scale(60, 900))
+    rule_models2_stream(ctx, I, ctx.scale(60, 900))
     ftc_table_check(ctx, I)
     interval_fun_stream(ctx, I, ctx.scale(1500, 30000))
     rules_stream(ctx, I, ctx.scale(80, 900))
@@ -3268,19 +3408,33 @@ MANIFEST = {
             "code checks none of these); parts_value (partsM = IntegrationByParts.eval after its acceptance test, which is replaced by "
             "the fact it stands for, body = u * deriv v; u, v differentiable, derivatives integrable); ftc_value ([F]_a^b = INT_a^b f "
             "when deriv F = f, the shape DefiniteIntegralIdentity produces from its table; the harness checks deriv F = f for every "
-            "indefinite-integral identity of the base book and every one it sees used); interval_encloses_add/neg/sub/mul/inverse/div/"
+            "indefinite-integral identity of the base book and every one it sees used); substitution_inverse_value (substInvM = "
+            "SubstitutionInverse.eval with the rule's computed bounds as oracle arguments; SubstInvOK: u fresh, h differentiable with "
+            "continuous derivative, integrand continuous on the image, h maps the new bounds to the old ones - the harness checks the "
+            "last numerically on every generated application); integrate_by_equation_value (ibeM = IntegrateByEquation.eval before its "
+            "last normalize, given that the current expression has the value of L and the coefficient is not 1; the code does not test "
+            "that: a numeric coefficient 1 makes its normalize raise ZeroDivisionError, a symbolic one is silently assumed != 1); "
+            "equation_value_partial (equationM = Equation.eval: the first occurrence of old in find_subexpr order is replaced; value "
+            "preserved when both sides have equal value in every environment; PARTIAL: the acceptance test - normal-form equality - is "
+            "an oracle flag, and equality only under the conditions / inside the range of an enclosing integral is not covered); "
+            "interval_encloses_add/neg/sub/mul/inverse/div/"
             "pow/sqrt/exp/log, interval_contained_in_sound, interval_intersection_mem (Interval arithmetic with open/closed flags and "
             "infinite endpoints; contained_in on exact endpoints); expr_parse_print_partial (token-level round trip of the printer's "
             "bracket rules through a model of the Lark grammar; lexing of the printed string is checked per case at run time, not "
             "proved). Structural differences between model and code are re-judged on normal forms and values before anything is "
             "reported. NOT PROVED (numerical oracle only; mpmath at two precisions, >= 3 admissible parameter points per step: "
             "interior, near the stated bounds, larger magnitude): normalize/Simplify/FullSimplify, Substitution's second branch "
-            "(solving g = u) and its computation of bounds by limits, SubstitutionInverse, identities, Equation, limits, series, "
-            "ElimInfInterval, definitions, equation rules, DerivIntExchange, the Leibniz integral case of deriv, get_bounds_for_expr, "
+            "(solving g = u) and its computation of bounds by limits, SubstitutionInverse's bound computation, ApplyIdentity, the "
+            "acceptance tests of Equation, ExpandPolynomial (to_poly arithmetic), limits, series, ElimInfInterval, LimitEquation, "
+            "definitions, the other equation rules, DerivIntExchange, the Leibniz integral case of deriv, get_bounds_for_expr, "
             "Interval.sin/cos/from_condition and powers with an interval or non-natural exponent. Recorded steps of integral/examples: "
             "thorough re-runs all loadable recorded steps (time cap 15 min), quick one quarter of the files per run (group seed mod 4, "
             "95 s cap; seeds 0-3 together cover every file); about 15% of the steps cannot be evaluated reliably and are counted as "
-            "skipped. A recorded step whose rule starts raising (corpus/c19_replayable.json) is reported.",
+            "skipped. A recorded step whose rule starts raising (corpus/c19_replayable.json) is reported. HISTORIES: generated "
+            "calculations on live compstate.Calculation objects (substitute / table / replace substitution with re-used variable "
+            "names, going back to an earlier step through CalculationStep.perform_rule and re-doing a rule there) have every step "
+            "judged against the start with the substitutions in force, and every recorded calculation is re-done from a random "
+            "earlier step and compared with the forward replay.",
     "note": "Trusted: Lean kernel + propext/Classical.choice/Quot.sound, Mathlib analysis library, the harness generators and the numerical "
             "oracle (mpmath quadrature/differentiation/limits), Lark. The theorems about substM take normalize's output as given "
             "(value hypothesis qval) - normalize itself is judged only numerically; SubstOK/PartsOK/FtcOK/LinOK spell out the analytic "
@@ -3315,6 +3469,9 @@ FINDINGS = [
     {"status": "fixed", "key": "crash:norm.minus_normal_definite_integral", "commit": "b74ba79",
      "what": "norm.minus_normal_definite_integral called to_poly without conds: Equation raised TypeError instead of declining "
              "(e.g. rewriting (INT x:[0,1]. x^2) - (INT y:[0,1]. y) to INT x:[0,1]. (x - 1) * x)"},
+    {"status": "fixed", "key": "history:replace-substitution-under-open-integral", "commit": "fixes/C19-12.patch",
+     "what": "ReplaceSubstitution rewrote the bound variable of an integral still to be evaluated: (x + 3) ^ 3 / 3 + (INT u. 1/2 * u ^ 2) "
+             "became ... + (INT u. 1/2 * (2 * x + 1) ^ 2) (value changed)"},
     {"status": "known", "key": "normalize-idempotent:second-pass-changes-form-only",
      "what": "normalize is not idempotent: a second pass reorders factors, distributes a rational coefficient or simplifies constants "
              "further (e.g. (x - y) / 5 -> 1/5 * (x - y) -> 1/5 * x - 1/5 * y); the value is unchanged (checked on every instance)"},
